@@ -125,7 +125,7 @@ def stream_sample(ctx, ntables):
                                 {"table": ES.typed_summary(t), "strategy": desc, "head": t["df"].head(5).astype(str).values.tolist()},
                                 "raises-empty-cluster" if empty_cluster else "raises-empty-left-table" if empty_left else "raises"); continue
             multi = len(syn.clusters.derived_clusters) > 0
-            S.count((repr(t["df"].values.tolist()), desc, repr(t["ap"])), ncols >= 3 or multi,
+            S.count((repr(t["df"].astype(str).values.tolist()), desc, repr(t["ap"])), ncols >= 3 or multi,
                     {"table": ES.typed_summary(t), "strategy": desc, "clusters": PS.clusters_str(syn.clusters), "rows_out": len(out)}, tag=desc.split("-")[0] + ("/multi" if multi else ""))
             check_output(ctx, t, out, desc)
     # one strategy object (main column / target given by name) used for two tables that have the named column at different positions
